@@ -7,6 +7,7 @@ import Driver.MeshFam
 import Driver.DispFam
 import Driver.ValidFam
 import Driver.StyleFam
+import Driver.StyleStateFam
 import Driver.TrimeshFam
 import Driver.PolyFam
 import Driver.SymFam
@@ -33,6 +34,7 @@ def stepLine (st : St) (line : String) : St × String :=
   | "mesh" :: _ => (st, MeshFam.step (line.drop 5).toString)
   | "valid" :: _ => (st, ValidFam.step (line.drop 6).toString)
   | "style" :: _ => (st, StyleFam.step (line.drop 6).toString)
+  | "sstate" :: _ => (st, StyleStateFam.step (line.drop 7).toString)
   | "trimesh" :: _ => (st, TrimeshFam.step (line.drop 8).toString)
   | "poly" :: _ => (st, PolyFam.step (line.drop 5).toString)
   | "disp" :: _ => (st, DispFam.step (line.drop 5).toString)
